@@ -1591,7 +1591,8 @@ func getEniOptions(node *networkv1beta1.Node) []*eniOptions {
 	// range all eni
 	// 1. if we require trunk/erdma, create it
 	if node.Spec.ENISpec.EnableTrunk {
-		cnt := min(flavor[trunkKey], newENILimit)
+		// more trunk eni than the flavor has (flavor[trunkKey] < 0) must not turn into room for other eni
+		cnt := max(min(flavor[trunkKey], newENILimit), 0)
 		for i := 0; i < cnt; i++ {
 			result = append(result, &eniOptions{
 				eniTypeKey: trunkKey,
